@@ -30,8 +30,53 @@ type Stub struct {
 	// Verify decides whether sig is a valid signature of msg under key id.
 	Verify func(id int, sig, msg []byte) bool
 
+	// KeyString renders key id as the public-key string (inverse of ParseKey).
+	KeyString func(id int) string
+	// Sign produces the signature of msg under key id; the stub's contract is
+	// that Verify(id, Sign(id, msg), msg) holds when the harness says so.
+	Sign func(id int, msg []byte) []byte
+
 	keys  map[int]*ecdsa.PublicKey
+	privs map[int]*ecdsa.PrivateKey
 	Calls []Call
+}
+
+// PrivKey returns the private-key object of key id.
+func (s *Stub) PrivKey(id int) *ecdsa.PrivateKey {
+	if s.privs == nil {
+		s.privs = map[int]*ecdsa.PrivateKey{}
+	}
+	if k, ok := s.privs[id]; ok {
+		return k
+	}
+	k := &ecdsa.PrivateKey{PublicKey: *s.key(id), D: big.NewInt(int64(id))}
+	s.privs[id] = k
+	return k
+}
+
+func (s *Stub) privID(k *ecdsa.PrivateKey) int {
+	for id, x := range s.privs {
+		if x == k {
+			return id
+		}
+	}
+	return -1
+}
+
+func (s *Stub) GetEcdsaPublicKeyJsonFormatStr(k *ecdsa.PrivateKey) (string, error) {
+	id := s.privID(k)
+	if id < 0 {
+		return "", errors.New("vcrypto: unknown private key object")
+	}
+	return s.KeyString(id), nil
+}
+
+func (s *Stub) SignECDSA(k *ecdsa.PrivateKey, msg []byte) ([]byte, error) {
+	id := s.privID(k)
+	if id < 0 {
+		return nil, errors.New("vcrypto: unknown private key object")
+	}
+	return s.Sign(id, msg), nil
 }
 
 func (s *Stub) key(id int) *ecdsa.PublicKey {
